@@ -1,6 +1,8 @@
 package sm2
 
 import (
+	"bytes"
+	"errors"
 	"encoding/asn1"
 	"math/big"
 )
@@ -63,9 +65,14 @@ func SignDigitToSignData(r, s *big.Int) ([]byte, error) {
 func SignDataToSignDigit(sign []byte) (*big.Int, *big.Int, error) {
 	var sm2Sign sm2Signature
 
-	_, err := asn1.Unmarshal(sign, &sm2Sign)
+	rest, err := asn1.Unmarshal(sign, &sm2Sign)
 	if err != nil {
 		return nil, nil, err
+	}
+	// only the DER encoding of (r, s) itself is a signature: encoding/asn1 tolerates further members inside
+	// the SEQUENCE, and bytes after it were dropped here
+	if der, err := asn1.Marshal(sm2Sign); err != nil || len(rest) != 0 || !bytes.Equal(der, sign) {
+		return nil, nil, errors.New("sm2: signature is not a DER SEQUENCE of two INTEGERs")
 	}
 	return sm2Sign.R, sm2Sign.S, nil
 }
